@@ -106,7 +106,7 @@ def idx(indices, j):
     return smt.ival(z3.Select(indices.arr, j))
 
 
-@vc('C12.itercut', functions=[B + 'itercut', UB + 'rowgetter'], props=['C12', 'C03', 'C20'],
+@vc('C12.itercut', functions=[B + 'itercut', UB + 'rowgetter'], props=['C12', 'C03', 'C20', 'C02'],
     assumptions=['contract of asindices (contracts/lib_base.py), discharged by C12.asindices.range',
                  'stateless-body rule (engine meta-theorem): out = header ++ concat over data rows of the per-row delta'])
 def itercut(h):
@@ -148,7 +148,7 @@ def itercut(h):
 
 
 # ------------------------------------------------------------------------------------------------ stack
-@vc('C12.iterstack', functions=[B + 'iterstack'], props=['C12', 'C03', 'C20', 'C06'],
+@vc('C12.iterstack', functions=[B + 'iterstack'], props=['C12', 'C03', 'C20', 'C06', 'C02'],
     assumptions=['two source tables (the outer loop over tables is unrolled); rows, lengths, flags symbolic',
                  'stateless-body rule (engine meta-theorem)'])
 def iterstack(h):
@@ -189,7 +189,7 @@ def clamp_ins(i, ln):
     return z3.If(i < 0, z3.If(i + ln < 0, 0, i + ln), z3.If(i > ln, ln, i))
 
 
-@vc('C12.iteraddfield', functions=[B + 'iteraddfield'], props=['C12', 'C03', 'C20'],
+@vc('C12.iteraddfield', functions=[B + 'iteraddfield'], props=['C12', 'C03', 'C20', 'C02'],
     assumptions=['the value is a fixed (non-callable) value or an uninterpreted callable; index is None or any integer',
                  'stateless-body rule (engine meta-theorem)'])
 def iteraddfield(h):
@@ -234,7 +234,7 @@ def iteraddfield(h):
 
 
 # ------------------------------------------------------------------------------------------------ addrownumbers
-@vc('C12.iteraddrownumbers', functions=[B + 'iteraddrownumbers'], props=['C12', 'C03', 'C20'],
+@vc('C12.iteraddrownumbers', functions=[B + 'iteraddrownumbers'], props=['C12', 'C03', 'C20', 'C02'],
     assumptions=['T2: zip(it, count(start, step)) pairs data row i (0-based) with start + i*step',
                  'stateless-body rule (engine meta-theorem)'])
 def iteraddrownumbers(h):
@@ -271,7 +271,7 @@ def iteraddrownumbers(h):
 def passthrough_task(qn, nargs_builder, loop_ordinal=0, name=None, nmin=1):
     short = name or qn.split('.')[-1]
 
-    @vc('C12.' + short, functions=[qn], props=['C12', 'C03', 'C20'],
+    @vc('C12.' + short, functions=[qn], props=['C12', 'C03', 'C20', 'C02'],
         assumptions=['stateless-body rule (engine meta-theorem)'])
     def task(h):
         def body(ctx):
